@@ -9,6 +9,7 @@ import (
 )
 
 const lexer_start int = 1
+const lexer_first_final int = 3
 const lexer_error int = 0
 
 const lexer_en_main int = 1
@@ -353,3 +354,31 @@ func (lex *Lexer) isLabelEnd(p int) bool {
 	}
 	return true
 }
+
+// call-stack helpers in the shape of the repository's lexer.go
+func (lex *Lexer) growCallStack() {
+	if lex.top == len(lex.stack) {
+		lex.stack = append(lex.stack, 0)
+	}
+}
+
+func (lex *Lexer) call(state int, fnext int) {
+	lex.growCallStack()
+	lex.stack[lex.top] = state
+	lex.top++
+	lex.p++
+	lex.cs = fnext
+}
+
+func (lex *Lexer) ret(n int) {
+	if lex.top < n {
+		lex.top = 0
+		lex.p++
+		return
+	}
+	lex.top = lex.top - n
+	lex.cs = lex.stack[lex.top]
+	lex.p++
+}
+
+func (lex *Lexer) retOne() { lex.ret(1) }
